@@ -59,3 +59,8 @@ package patchvalidator
 //@   loop 1
 //@     invariant forall q int :: 0 <= q && q < _k ==> values[q] != value
 //@   ensures result == (exists q int :: 0 <= q && q < len(values) && values[q] == value)
+
+// outcome of the per-action validators as seen from ValidateDelta
+//@ func Validate
+//@   trusted
+//@   ensures (result == nil) == patchValid(p)
